@@ -29,6 +29,7 @@ class Contract:
     terminates: str | None = None    # decreases expression for recursive functions
     replay: object = None            # callable(model_inputs) -> dict describing native outcome
     ghost_updates: dict = field(default_factory=dict)   # ghost lvalue -> expr, executed as ghost code at normal exit
+    globals_in: dict = field(default_factory=dict)      # 'module.name' -> type: module globals the function reads (inputs)
 
 
 @dataclass
